@@ -395,7 +395,7 @@ brk("c08-missing-close-paren", ["C08"], "src/backend/query_builder.rs",
     """                write!(sql, "(").unwrap();
                 self.prepare_values_list(values, sql);""", "C08.R2:parens")
 brk("c13-affinity-point", ["C13"], "src/backend/sqlite/table.rs", """                ColumnType::Uuid => "uuid_text".into(),""", """                ColumnType::Uuid => "uuid_point".into(),""", "C13.R2:sqlite:type:Uuid")
-brk("c14-mysql-unsigned-dropped", ["C14"], "src/backend/mysql/table.rs", "ColumnType::TinyUnsigned\n", "ColumnType::TinyInteger\n", "C14.R2:mysql:type", )
+brk("c14-mysql-unsigned-dropped", ["C14"], "src/backend/mysql/table.rs", "            ColumnType::TinyUnsigned\n                | ColumnType::SmallUnsigned", "            ColumnType::SmallUnsigned", "C14.R2:mysql:type")
 ben("c14-benign-for-loop", ["C14"], "src/backend/postgres/table.rs",
     """                    let first = column_def.types.is_none();
 
@@ -411,3 +411,19 @@ ben("c14-benign-for-loop", ["C14"], "src/backend/postgres/table.rs",
            ("src/backend/postgres/table.rs", """                        first && no_clause
                     });""", """                        first = first && no_clause;
                     }""")])
+
+# ---- C09 -------------------------------------------------------------------------------------------------------
+brk("c09-sqlite-drops-offset", ["C09"], "src/backend/sqlite/query.rs",
+    """    fn prepare_query_statement(&self, query: &SubQueryStatement, sql: &mut dyn SqlWriter) {""",
+    """    fn prepare_select_limit_offset(&self, select: &SelectStatement, sql: &mut dyn SqlWriter) {
+        if let Some(limit) = &select.limit {
+            write!(sql, " LIMIT ").unwrap();
+            self.prepare_value(limit, sql);
+        }
+    }
+
+    fn prepare_query_statement(&self, query: &SubQueryStatement, sql: &mut dyn SqlWriter) {""", "C09.R1:override:sqlite")
+brk("c09-mysql-join-spelling", ["C09"], "src/backend/mysql/query.rs",
+    """            JoinType::FullOuterJoin => panic!("Mysql does not support FULL OUTER JOIN"),""",
+    """            JoinType::FullOuterJoin => panic!("Mysql does not support FULL OUTER JOIN"),
+            JoinType::Join => write!(sql, "STRAIGHT_JOIN").unwrap(),""", "C09.R2:agree:JoinType")
